@@ -45,6 +45,14 @@ class Mat2:
             return Mat2(self.m, self.e)
         return NotImplemented
 
+    def __imul__(self, o):
+        # a mutable monoid element (as numpy matrices are): a *= b updates a in place
+        r = self.__mul__(o)
+        if r is NotImplemented:
+            return r
+        self.e = r.e
+        return self
+
     def seq(self):
         return list(self.e)
 
